@@ -96,6 +96,9 @@ class RecSubscriber:
                 self._timers.append(self.world.loop.call_later(sc.get('initial_delay', 0.001), self.grant, n))
         elif sc.get('in_subscribe'):
             self.grant(sc['in_subscribe'])
+        if sc.get('cancel_in_subscribe'):
+            self.cancel()
+            return
         if sc.get('cancel_at') is not None:
             self._timers.append(self.world.loop.call_later(sc['cancel_at'], self._cancel_hop))
         if sc.get('cancel_at_iter') is not None:
